@@ -496,7 +496,7 @@ func init() {
 	vx.Register(&vx.Prop{
 		ID:    "C19",
 		Level: "exploration",
-		Rule: "the fitgen command built from the tree is run on product-profile selections: deviation 0 = each of the 5 bundled workbooks as .xlsx with -sdk and as FitSDKRelease_X.Y.zip, each twice; deviation 1 = every single-row toggle of the example column (disable an enabled row / enable a disabled one) that an independent dependency analysis allows, quick: the messages of 21.40 that carry components or subfields, thorough: every message of all 5 workbooks plus all row pairs of two small messages. " +
+		Rule: "the fitgen command built from the tree is run on product-profile selections: deviation 0 = each of the 5 bundled workbooks as .xlsx with -sdk and as FitSDKRelease_X.Y.zip, each twice; deviation 1 = every single-row toggle of the example column (disable an enabled row / enable a disabled one) that an independent dependency analysis allows, quick: the messages of 21.40 that carry components or subfields, thorough: every message of all 5 workbooks; deviation 2 = dependency-closed pairs (a field with enabled subfields together with the reference field they switch on; a component source together with one of its targets). " +
 			"Oracle: exit status 0, the four files byte-identical across the two runs (and across input forms), declared SDK version, audit of struct fields and lookup entries against an independent stdlib reading of the workbook (one field + one entry per enabled row with its number, base type, array flag; nothing for disabled rows), and a go/types check of the generated files together with the hand-written support code: any error located in a generated file, or any support-code error outside the stock skew set of that workbook, is a violation. distinct = distinct generated outputs",
 		Assumptions: []string{"rows with components, component targets, subfield reference fields of enabled rows and fields the hand-written code selects are not toggled (this only narrows the explored set)", "the 21.115 workbook the checked-in profile was generated from is not in the repository"},
 		Run:         runC19,
@@ -740,6 +740,93 @@ func runC19(w *vx.W) {
 				w.Fam("deviation-1/"+ver, 1)
 				if mi == 20 && fi == 1 {
 					w.Sample(map[string]interface{}{"workbook": ver, "toggle": tg})
+				}
+			}
+		}
+	}
+	// ---- deviation 2, dependency-closed pairs: a field with enabled subfields is disabled together with the
+	// reference field its subfields switch on (only the parent's own cell is blanked, as a product profile would),
+	// and a component source is disabled together with one of its targets.
+	for _, ver := range versions {
+		st := stocks[ver]
+		if st == nil || st.skew == nil || (ver != "21.40" && !thorough) {
+			continue
+		}
+		needed := func(m *wbMsg, name string, except *wbField) bool {
+			for _, f := range m.Fields {
+				if f == except || !f.enabled() {
+					continue
+				}
+				for _, c := range f.Comps {
+					if c == name {
+						return true
+					}
+				}
+				for _, s := range f.Subs {
+					if s.enabled() {
+						for _, r := range append(append([]string{}, s.Refs...), s.Comps...) {
+							if r == name {
+								return true
+							}
+						}
+					}
+				}
+			}
+			return false
+		}
+		for _, m := range st.msgs {
+			compRows := 0
+			for _, f := range m.Fields {
+				if f.enabled() && len(f.Comps) > 0 {
+					compRows++
+				}
+			}
+			for _, parent := range m.Fields {
+				if !parent.enabled() || st.selected[camel(m.Name)+"Msg."+camel(parent.Name)] || needed(m, parent.Name, parent) {
+					continue
+				}
+				partners := map[string]bool{}
+				for _, sub := range parent.Subs {
+					if sub.enabled() {
+						for _, r := range sub.Refs {
+							partners[r] = true
+						}
+					}
+				}
+				if len(parent.Comps) > 0 {
+					if compRows < 2 {
+						continue
+					}
+					for _, c := range parent.Comps {
+						partners[c] = true
+					}
+				}
+				for pn := range partners {
+					var partner *wbField
+					for _, f := range m.Fields {
+						if f.Name == pn && f.enabled() {
+							partner = f
+						}
+					}
+					if partner == nil || partner == parent || len(partner.Comps) > 0 || st.selected[camel(m.Name)+"Msg."+camel(partner.Name)] || needed(m, partner.Name, parent) {
+						continue
+					}
+					caseNo++
+					if !w.Mine(caseNo) {
+						continue
+					}
+					if w.Expired("pair toggles") {
+						return
+					}
+					wb2, _ := xlsxlite.Open(st.data)
+					wb2.SetNumber(wb2.Sheets[1], parent.Row, colExample, "0")
+					wb2.SetNumber(wb2.Sheets[1], partner.Row, colExample, "0")
+					nb, _ := wb2.Bytes()
+					o1, o2 := parent.Example, partner.Example
+					parent.Example, partner.Example = "0", "0"
+					checkVariant(ver, st, []c19Toggle{{parent.Row, "0", "disable " + m.Name + "." + parent.Name}, {partner.Row, "0", "disable " + m.Name + "." + partner.Name}}, nb, st.msgs)
+					parent.Example, partner.Example = o1, o2
+					w.Fam("deviation-2-pairs/"+ver, 1)
 				}
 			}
 		}
